@@ -244,3 +244,24 @@ Proof.
   destruct (can_inline th rest) eqn:B; [|intros H; discriminate]. intros H. injection H as <- <- _ _ <- <- _ _ _.
   repeat split; auto. destruct placed; auto.
 Qed.
+
+Lemma throw_preserves_accounting u s T : reach step1 (init u) s ->
+  outst (sets (sh s) T) = qcount T (queue (sh s)) + tsum (contrib T) (threads s) /\
+  (qcount T (queue (sh s)) = 0 -> (forall th f, In th (threads s) -> In f (stk th) -> contrib T f = 0) -> outst (sets (sh s) T) = 0).
+Proof. intros R. split; [apply (outstanding_counts u s R) | apply (quiescent_zero u s T R)]. Qed.
+Lemma force_dispatch_both s T skip b n c s' fr e :
+  (dispatch s (OSched T true skip b) c = (s', fr, e) -> forallb force_frame fr = true /\ no_body_event e) /\
+  (dispatch s (OBulk T true n b) c = (s', fr, e) -> forallb force_frame fr = true /\ no_body_event e).
+Proof. split; [apply force_dispatch | apply force_dispatch_bulk]. Qed.
+
+(* ---------- the C04 refutation witness: cancel(); schedule(f) on a ConcurrentTaskSet with workRemaining_ 40 > poolLoadFactor_ 32 ---------- *)
+Definition c04_witness : setup := SU [TC true false 4 []] [] 40 1 32 3 0 [] [([OCancel 0; OSched 0 false false []], false, 0)].
+Lemma c04_refuted_reach :
+  exists s th k b rest, reach step1 (init c04_witness) s /\ In th (threads s) /\ stk th = FRawPt 0 k b 6 0 true :: rest /\
+    canc (sets (sh s) 0) = true /\ 0 < cst (sets (sh s) 0) /\ In (t_c, 0, cst (sets (sh s) 0)) (res th) /\
+    lic_of (FRawPt 0 k b 6 0 true) = None.
+Proof.
+  pose proof (run_ts_reach 4 c04_witness [0; 0; 0]) as R.
+  remember (run_ts 4 c04_witness [0; 0; 0]) as r eqn:E. vm_compute in E. subst r. cbn [fst] in R.
+  eexists _, _, _, _, _. split; [exact R|]. cbn. split; [left; reflexivity|]. repeat split; try reflexivity. left. reflexivity.
+Qed.
